@@ -38,15 +38,31 @@ def generated (m : ModuleIR) : Bool := m.kind != .copied && m.kind != .custom
 
 def identOK (s : String) : Bool := InputField.pyIdentOk s
 
+/-- the shape of a Python identifier (`str.isidentifier` on the ASCII names GraphQL allows): not empty, word
+    characters only, no leading digit -/
+def identShape (s : String) : Bool :=
+  match s.toList with
+  | [] => false
+  | c :: cs => (Names.cls c != .D && Names.isWordChar c) && cs.all Names.isWordChar
+
+def isKeyword (s : String) : Bool := Tables.kwlist.contains s
+
+theorem identOK_eq (s : String) : identOK s = (identShape s && !isKeyword s) := by
+  unfold identOK InputField.pyIdentOk identShape isKeyword
+  cases s.toList <;> simp
+
 /-- every identifier the module introduces -/
 def moduleIdents (m : ModuleIR) : List String :=
   (if m.kind == .init then [] else [stem m.file])
   ++ m.classes.flatMap (fun c => c.name :: c.fields) ++ m.methods.flatMap (fun f => f.name :: f.params) ++ m.funcs
 
-/-- C18-F4 / F5 / F9 seen from the package (F6, F7): an emitted identifier is not a Python identifier
-    or is a keyword (`1`, `class`, `None`) -/
-def trigInvalidIdentifier (p : PackageIR) : Bool :=
-  p.modules.any fun m => generated m && (moduleIdents m).any (!identOK ·)
+/-- C18-F4 seen from the package (F6): an emitted identifier is not a Python identifier (`1`, the empty name) -/
+def trigIdentNotPython (p : PackageIR) : Bool :=
+  p.modules.any fun m => generated m && (moduleIdents m).any (!identShape ·)
+
+/-- C18-F5 / F9 seen from the package (F7): an emitted identifier is a keyword (`class`, `None`, `True`) -/
+def trigIdentKeyword (p : PackageIR) : Bool :=
+  p.modules.any fun m => generated m && (moduleIdents m).any isKeyword
 
 /-- C03-F2..F4 (F10): a method with two parameters of the same name (`self`, `kwargs`, merged variables) -/
 def trigDuplicateParam (p : PackageIR) : Bool :=
@@ -77,18 +93,20 @@ def trigNameBoundTwice (p : PackageIR) : Bool :=
   p.modules.any fun m => generated m &&
     hasDup ((importBindings m).map (·.2.2) ++ m.funcs ++ m.classes.map (·.name))
 
+/-- C18-F8 seen from the package (F21): with snake-casing off a response key `typename__` (or `_typename__`) gets the
+    Python name of the automatic `__typename` field: the class body annotates `typename__` twice, the later annotation
+    (not a `Literal`) wins and pydantic refuses the discriminated union -/
+def trigTypenameFieldClash (p : PackageIR) : Bool :=
+  p.modules.any fun m => (m.kind == .result || m.kind == .fragments) &&
+    m.classes.any fun c => (c.fields.filter (· == ResultTypes.typenameAlias)).length > 1
+
 /-- F15: a class with quoted forward references that no `model_rebuild()` call completes -/
 def trigMissingRebuild (p : PackageIR) : Bool :=
   p.modules.any fun m => m.classes.any fun c => !c.fwd.isEmpty && !m.rebuilds.contains c.name
 
-/-- C18-F1 on operations: two operations get one module (the second overwrites the first's file) -/
-def trigOpModuleMerge (inp : Input) : Bool :=
-  hasDup (inp.ops.filterMap fun o => o.op.name.map methodName)
-
-/-- F13: with custom operations four more files are written that the unique-name check does not know -/
-def trigCustomOpsFileClash (cfg : Config) (inp : Input) : Bool :=
-  cfg.customOps && (inp.ops.filterMap fun o => o.op.name.map fun n => pyFile (methodName n)).any
-    (fun f => (customFiles inp.schema).contains f || f == "__init__.py")
+/-- F13: a file is written twice (`_validate_unique_file_names` does not know the four custom-operation files nor
+    `__init__.py`): the reported list names it twice, the first content is lost -/
+def trigFileWrittenTwice (p : PackageIR) : Bool := hasDup p.writeLog
 
 /-- the input types / enums the custom-operation modules import (arguments of the fields of every
     object and interface type) -/
@@ -121,9 +139,15 @@ def inputFieldsOf (inp : Input) : List InputGen.InputField :=
 /-- C06-F3 (F5): keyword-named enum value in an input-field default -/
 def trigKeywordEnumDefault (inp : Input) : Bool := (inputFieldsOf inp).any InputField.trigKeywordEnumDefault
 
-/-- C06-F2: enum literal inside an object default is emitted with the INPUT class name -/
-def trigEnumInObjectDefault (cfg : Config) (inp : Input) : Bool :=
-  (inputFieldsOf inp).any (InputField.trigEnumInObjectDefault (InputField.kindOf (inputCfg cfg) inp.defs))
+/-- C01-F5 (F12): `_resolve_selection_set` keeps the root type of an inline fragment on an interface the OBJECT
+    implements and then looks the fragment's fields up in the wrong type: ParsingError "Field … not found in type …"
+    for a valid operation (raised by `_get_field_from_schema`, in an operation or in a fragment definition) -/
+def fieldNotFoundMsg (m : String) : Bool := m.startsWith "Field " && m.endsWith "."
+
+def trigFieldLookupWrongType (r : Triggers01.Run) : Bool :=
+  (r.ops ++ r.frags.map (·.2)).any fun x => match x with
+    | .error (.parsing m) => fieldNotFoundMsg m
+    | _ => false
 
 /-- C02-F1 / F4 (F8): the printed operation contains `'` / `\"\"\"` -/
 def trigText (t : Embed.Trig) (inp : Input) : Bool :=
@@ -132,35 +156,44 @@ def trigText (t : Embed.Trig) (inp : Input) : Bool :=
     | some .blockString, .blockString => true
     | _, _ => false
 
-def triggers (cfg : Config) (inp : Input) : List String :=
+/-- evaluate a predicate on the model's package IR (false when the model's run does not end in a package) -/
+def onIR (cfg : Config) (inp : Input) (f : PackageIR → Bool) : Bool :=
+  match modelIR cfg inp with
+  | some p => f p
+  | none => false
+
+/-- every finding trigger of C04 with its value on this input -/
+def triggerTable (cfg : Config) (inp : Input) : List (String × Bool) :=
   let t01 := t01Input cfg inp
   let r := Triggers01.run t01
   let ops := inp.ops.map (·.op)
   let env := rtEnv cfg inp
-  let ir := modelIR cfg inp
-  let onIR (f : PackageIR → Bool) : Bool := match ir with | some p => f p | none => false
-  (if Triggers01.trigInlineNoType t01 then ["inlineNoType"] else [])
-  ++ (if Triggers01.trigTypenameAlias t01 then ["typenameAlias"] else [])
-  ++ (if Triggers01.trigDupCompositeKey t01 then ["dupCompositeKey"] else [])
-  ++ (if Triggers01.trigDroppedSelection inp.schema r then ["droppedSelection"] else [])
-  ++ (if Triggers01.trigMixinAndUnpacked r || Fragments.trigUnpackedAndInherited id env fuel ops then ["unpackedAndInherited"] else [])
-  ++ (if Fragments.trigMroConflict id env fuel ops then ["mroConflict"] else [])
-  ++ (if onIR trigInvalidIdentifier then ["invalidIdentifier"] else [])
-  ++ (if onIR trigDuplicateParam then ["duplicateParam"] else [])
-  ++ (if onIR trigEnumMemberReserved then ["enumMemberReserved"] else [])
-  ++ (if onIR trigEnumMemberDuplicate then ["enumMemberDuplicate"] else [])
-  ++ (if onIR trigNameBoundTwice then ["nameBoundTwice"] else [])
-  ++ (if onIR trigMissingRebuild then ["missingRebuild"] else [])
-  ++ (if trigOpModuleMerge inp then ["opModuleMerge"] else [])
-  ++ (if trigCustomOpsFileClash cfg inp then ["customOpsFileClash"] else [])
-  ++ (if onIR (trigCustomOpsPruned cfg inp) then ["customOpsPruned"] else [])
-  ++ (if trigCustomOpsInputsModule cfg inp then ["customOpsInputsModule"] else [])
-  ++ (if trigCustomOpsName cfg inp then ["customOpsName"] else [])
-  ++ (if trigKeywordEnumDefault inp then ["keywordEnumDefault"] else [])
-  ++ (if trigEnumInObjectDefault cfg inp then ["enumInObjectDefault"] else [])
-  ++ (if trigText .quote inp then ["textQuote"] else [])
-  ++ (if trigText .blockString inp then ["textBlockString"] else [])
-  ++ (if cfg.extractOps.isSome then ["pluginExtractOperations"] else [])
+  [("inlineNoType", Triggers01.trigInlineNoType t01),
+   ("typenameAlias", Triggers01.trigTypenameAlias t01),
+   ("dupCompositeKey", Triggers01.trigDupCompositeKey t01),
+   ("fieldLookupWrongType", trigFieldLookupWrongType r),
+   ("unpackedAndInherited", Triggers01.trigMixinAndUnpacked r || Fragments.trigUnpackedAndInherited id env fuel ops),
+   ("mroConflict", Fragments.trigMroConflict id env fuel ops),
+   ("identNotPython", onIR cfg inp trigIdentNotPython),
+   ("identKeyword", onIR cfg inp trigIdentKeyword),
+   ("duplicateParam", onIR cfg inp trigDuplicateParam),
+   ("enumMemberReserved", onIR cfg inp trigEnumMemberReserved),
+   ("enumMemberDuplicate", onIR cfg inp trigEnumMemberDuplicate),
+   ("nameBoundTwice", onIR cfg inp trigNameBoundTwice),
+   ("missingRebuild", onIR cfg inp trigMissingRebuild),
+   ("typenameFieldClash", onIR cfg inp trigTypenameFieldClash),
+   ("fileWrittenTwice", onIR cfg inp trigFileWrittenTwice),
+   ("customOpsPruned", onIR cfg inp (trigCustomOpsPruned cfg inp)),
+   ("customOpsInputsModule", trigCustomOpsInputsModule cfg inp),
+   ("customOpsName", trigCustomOpsName cfg inp),
+   ("keywordEnumDefault", trigKeywordEnumDefault inp),
+   ("textQuote", trigText .quote inp),
+   ("textBlockString", trigText .blockString inp),
+   ("pluginExtractOperations", cfg.extractOps.isSome)]
+
+/-- the names of the triggers that hold (what the driver answers to `op: triggers`) -/
+def triggers (cfg : Config) (inp : Input) : List String :=
+  (triggerTable cfg inp).filterMap fun nb => if nb.2 then some nb.1 else none
 
 /-- the region where the partial theorems of C04 are claimed -/
 def Supported_04 (cfg : Config) (inp : Input) : Prop := triggers cfg inp = []
